@@ -136,7 +136,7 @@ class Engine:
         """generate all obligations for one function"""
         self.c = contract
         self.fdef = fdef
-        self.fname = contract.qualname
+        self.fname = contract.qualname + (("@" + contract.extra["variant"]) if contract.extra.get("variant") else "")
         self.classctx = classctx
         self.loop_ordinal = 0
         self.call_ordinals = {}
@@ -160,6 +160,15 @@ class Engine:
             st.env[name] = ty.fresh(name)
         for name, ty in contract.ghost.items():
             st.env[name] = ty.fresh("ghost_" + name)
+        if contract.extra.get("bind_defaults"):
+            # scenario "argument omitted": the parameter takes the default written in the real def
+            pos = fdef.args.posonlyargs + fdef.args.args
+            dmap = dict(zip([a.arg for a in pos][len(pos) - len(fdef.args.defaults):], fdef.args.defaults))
+            for name in contract.extra["bind_defaults"]:
+                if name not in dmap:
+                    raise StaleContract(f"{self.fname}: parameter {name} has no default any more")
+                st.env[name] = self.coerce(self.eval(dmap[name], Ctx(self, st, fdef)), contract.params[name],
+                                           Ctx(self, st, fdef), name)
         for v in list(st.env.values()):
             st.hyps += getattr(v, "axioms", [])
         pre_env = dict(st.env)
@@ -189,6 +198,8 @@ class Engine:
             self.frame(st, "normal")
         elif out.kind == "raise":
             exc = out.exc
+            st.env["_exc"] = PyExc(exc, out.value)
+            post = NS(st.env)
             if exc not in c.raises:
                 self.emit(f"unlisted-exception:{exc}", "raises", st, z3.BoolVal(False), getattr(node, "lineno", 0))
                 return
@@ -972,13 +983,15 @@ class Engine:
             when = spec["when"](NS(pre)) if spec.get("when") is not None else FreshConst(BoolS, "may_raise_" + exc)
             est = st.fork()
             epost = dict(pre)
+            eterm = spec["term"](NS(pre)) if spec.get("term") else FreshConst(Vs.E, "raised_" + exc)
+            epost["_exc"] = PyExc(exc, eterm)
             for m_ in spec.get("modifies", c.modifies):
                 self._havoc_actual(epost, m_, pre)
             for label, ens in spec.get("post", []):
                 est.hyps.append(ens(NS(pre), NS(epost)))
             if "." in "".join(spec.get("modifies", c.modifies)) or spec.get("modifies", c.modifies):
                 self._writeback(est, epost, pre, nodes, cx, spec.get("modifies", c.modifies), tmpst=est)
-            cx.branch_raise(when, exc, est)
+            cx.branch_raise(when, exc, est, term=eterm)
             if spec.get("exact"):
                 cx.assume(z3.Not(when))
         # normal return
